@@ -90,6 +90,8 @@ class Handler(BaseHTTPRequestHandler):
         if sc is None or sc.get('head') == 'fail':
             return self._send(500, head_only=True)
         body = BODIES[sc['good']]
+        if sc.get('stable_etag'):
+            return self._send(200, body, head_only=True, headers=[('ETag', '"release-7"')])
         if sc.get('last_modified'):
             # a server that dates its files: the checksum file is older than the data file
             lm = 'Tue, 20 Oct 2026 07:28:00 GMT' if self.path.endswith('.md5') else 'Wed, 21 Oct 2026 07:28:00 GMT'
@@ -169,8 +171,10 @@ class Handler(BaseHTTPRequestHandler):
                 return self._send(200, (h + '  donn\xe9es \xfc.bin\n').encode('latin-1'), headers=[
                     ('Content-Type', 'text/plain; charset=ISO-8859-1' if beh == 'latin1' else 'application/octet-stream')])
             return self._send(200, (h + '  file.bin\n').encode())
-        if beh in ('404', 'exhausted', '503', '502'):
-            return self._send({'404': 404, 'exhausted': 500, '503': 503, '502': 502}[beh], b'error')
+        if beh in ('404', 'exhausted', '503', '502', '503ra', '429ra'):
+            # (ra: the refusal carries a Retry-After header - it is an HTTP error all the same)
+            return self._send({'404': 404, 'exhausted': 500, '503': 503, '502': 502, '503ra': 503, '429ra': 429}[beh], b'error',
+                              headers=[('Retry-After', '1')] if beh.endswith('ra') else ())
         rng_h = self.headers.get('Range')
         if sc.get('range') and rng_h and rng_h.startswith('bytes='):
             # a server that honours range requests (resumable downloads)
@@ -189,6 +193,8 @@ class Handler(BaseHTTPRequestHandler):
             self.wfile.write(z)
             return
         hdr = []
+        if sc.get('stable_etag'):
+            hdr = [('ETag', '"release-7"')]           # a version tag: the same for every answer, whatever bytes are sent
         if sc.get('honest_headers'):
             # what web servers / object stores add on their own: digests of the bytes they are actually sending
             import base64
@@ -274,6 +280,13 @@ def run_shard(desc, ctx):
     for dd in (['corrupt', 'corrupt'], ['corrupt', 'good'], ['good'], ['corrupt', 'corrupt', 'good']):
         for pr in ('absent', 'corrupt'):
             extra.append({'data': dd, 'md5': 'correct', 'prior': pr, 'good': 'good', 'head': 'ok', 'last_modified': True})
+    # refusals that carry a Retry-After header; a server that tags every answer with the same (version) ETag
+    for dd in (['503ra'], ['429ra'], ['503ra', 'good'], ['corrupt', '429ra', 'good'], ['corrupt', '503ra']):
+        for pr in ('absent', 'corrupt'):
+            extra.append({'data': dd, 'md5': 'correct', 'prior': pr, 'good': 'good', 'head': 'ok'})
+    for dd in (['corrupt', 'good'], ['corrupt', 'corrupt'], ['good'], ['corrupt']):
+        for pr in ('absent', 'corrupt', 'valid'):
+            extra.append({'data': dd, 'md5': 'correct', 'prior': pr, 'good': 'good', 'head': 'ok', 'stable_etag': True})
     # a corruption that only changes line ends (LF -> CR LF): another file, another MD5
     for dd in (['crlf', 'crlf'], ['crlf', 'good'], ['crlf'], ['good'], ['404']):
         for pr in ('absent', 'crlf', 'valid'):
@@ -348,14 +361,14 @@ def expected(case):
     gets = 0
     d1 = data.pop(0) if data else 'exhausted'
     gets += 1
-    if d1 in ('404', 'exhausted', '503', '502'):
+    if d1 in ('404', 'exhausted', '503', '502', '503ra', '429ra'):
         return 'raise', gets, None, verified_all
     v = verify(d1)
     if v is not False:
         return 'return', gets, d1, verified_all and v is True
     d2 = data.pop(0) if data else 'exhausted'
     gets += 1
-    if d2 in ('404', 'exhausted', '503', '502'):
+    if d2 in ('404', 'exhausted', '503', '502', '503ra', '429ra'):
         return 'raise', gets, None, verified_all
     v = verify(d2)
     if v is False:
@@ -426,6 +439,8 @@ def run_case(case, ctx, shared=None):
         sc['range'] = True
     if case.get('last_modified'):
         sc['last_modified'] = True
+    if case.get('stable_etag'):
+        sc['stable_etag'] = True
     with State.lock:
         State.scripts[path] = sc
         if mirror:
